@@ -1701,6 +1701,19 @@ def strip_doc(d):
 def replay(data):
     d = data.get('data', {})
     stream = d.get('stream')
+    if stream == 'pages-render' and d.get('clause') == 'page-rules-reference':
+        (st, o), = common.run_impl('impl_c14', 'pages_render', [{'html': d['html']}])
+        if st != 'ok':
+            print('replay: render', st, o); return 1
+        doc = dict(d['doc'])
+        for r in doc['rules']:
+            r['sels'] = [(n, [tuple(p) for p in ps]) for n, ps in r['sels']]
+            r['decls'] = [tuple(x) for x in r['decls']]; r['mdecls'] = [tuple(x) for x in r['mdecls']]
+        for p in o:
+            print('replay:', p['index'], p['side'], repr(p['name']), 'margin-left', p['ml'], 'margin-right', p['mr'], p['texts'])
+        m = common.eval_cases('c14replay', PRE, DOC_T, [doc_case(doc, o)], 'doc_judge')
+        print('replay: judge mask', m)
+        return 1 if m[0] & 2 else 0
     if stream == 'pages-render':
         (st, o), = common.run_impl('impl_c14', 'pages_render', [{'html': d['html']}])
         if st != 'ok':
@@ -1755,19 +1768,6 @@ def replay(data):
         for c, m in zip(cs, masks):
             print('replay: page %d margin boxes show %s %s' % (c[1] + 1, c[2], 'WRONG' if m & 2 else ''))
         return 1 if any(m & 2 for m in masks) else 0
-    if stream == 'pages-render' and d.get('clause') == 'page-rules-reference':
-        (st, o), = common.run_impl('impl_c14', 'pages_render', [{'html': d['html']}])
-        if st != 'ok':
-            print('replay: render', st, o); return 1
-        doc = dict(d['doc'])
-        for r in doc['rules']:
-            r['sels'] = [(n, [tuple(p) for p in ps]) for n, ps in r['sels']]
-            r['decls'] = [tuple(x) for x in r['decls']]; r['mdecls'] = [tuple(x) for x in r['mdecls']]
-        for p in o:
-            print('replay:', p['index'], p['side'], repr(p['name']), 'margin-left', p['ml'], 'margin-right', p['mr'], p['texts'])
-        m = common.eval_cases('c14replay', PRE, DOC_T, [doc_case(doc, o)], 'doc_judge')
-        print('replay: judge mask', m)
-        return 1 if m[0] & 2 else 0
     if stream == 'groups-render':
         (st, o), = common.run_impl('impl_c14', 'pages_render', [{'html': d['html']}])
         if st != 'ok':
